@@ -1,7 +1,7 @@
 (* EffectsProofs7.v — engine X, part 7: a whole run of `move` commands, in ANY order and under ANY fault oracle:
    every stored content stays stored, regular files that are not sources and directories are untouched, and a
-   command that reports Ok leaves the source's bytes in a regular file at its target (when no symbolic link sits
-   there), where they stay until the end of the run. *)
+   command that reports Ok leaves the source's bytes in a regular file at its target, where they stay until the end
+   of the run. *)
 From Coq Require Import Permutation.
 From FV Require Import Base FsModel AtomicModel AtomicProofs AtomicProofs2 AtomicProofs3 AtomicProofs4.
 From FV Require Import EffectsModel EffectsProofs EffectsProofs2 EffectsProofs6.
@@ -18,7 +18,7 @@ Qed.
 Lemma move_step sl o i s c cs : moves_ok s (c :: cs) ->
   let r := run o i (prog_of sl c) s in
   moves_ok (ofs r) cs /\ keeps s (ofs r) (victim c) /\ (forall b, stored s b -> stored (ofs r) b) /\
-  (ores r = IOk -> (forall x, names s (move_target_of c) <> Some (NLink x)) ->
+  (ores r = IOk ->
      forall i0 d0, names s (victim c) = Some (NFile i0) -> inodes s i0 = Some d0 ->
      exists j dj, names (ofs r) (move_target_of c) = Some (NFile j) /\ inodes (ofs r) j = Some dj /\ ibytes dj = ibytes d0 /\
                   forall k, names s (move_target_of c) <> Some (NFile k)).
@@ -43,8 +43,8 @@ Proof.
       * destruct (HO eq_refl) as (q & j & dj & _ & Eq & Edj & Ebj & _). exists q, j, dj. repeat split; auto. congruence.
       * exists src, i0, d0. split; [auto|]. split; [|exact Eb]. rewrite K3; [exact Ed|]. destruct Hw as [W _]. eapply W; eauto.
     + exists p, ip, d. split; [apply K1; auto|]. split; [|exact Eb]. rewrite K3; [exact Edp|]. destruct Hw as [W _]. eapply W; eauto.
-  - intros Er Hnl i1 d1 Ea1 Ed1. assert (i1 = i0) by congruence. subst i1. assert (d1 = d0) by congruence. subst d1.
-    destruct (HO Er) as (q & j & dj & _ & Eq & Edj & Ebj & Hnf & Hq). specialize (Hq Hnl). subst q.
+  - intros Er i1 d1 Ea1 Ed1. assert (i1 = i0) by congruence. subst i1. assert (d1 = d0) by congruence. subst d1.
+    destruct (HO Er) as (q & j & dj & _ & Eq & Edj & Ebj & Hnf & Hq). subst q.
     exists j, dj. repeat split; auto.
 Qed.
 
@@ -80,20 +80,19 @@ Qed.
 
 (* the k-th command reported Ok: its bytes are in a regular file at its target at the END of the run *)
 Theorem moves_readable sl o : forall cs i s, moves_ok s cs ->
-  (forall c, In c cs -> forall x, names s (move_target_of c) <> Some (NLink x)) ->
   let out := run_script sl o i cs s in
   forall c r, In (c, r) (combine cs (sresults out)) -> r = IOk ->
   forall i0 d0, names s (victim c) = Some (NFile i0) -> inodes s i0 = Some d0 ->
   exists j dj, names (sfs out) (move_target_of c) = Some (NFile j) /\ inodes (sfs out) j = Some dj /\ ibytes dj = ibytes d0.
 Proof.
-  induction cs as [|c0 cs IH]; intros i s Hok Hnl; cbn [run_script sfs sresults combine]; [intros c r []|].
+  induction cs as [|c0 cs IH]; intros i s Hok; cbn [run_script sfs sresults combine]; [intros c r []|].
   destruct (move_step sl o i s c0 cs Hok) as (Hok' & K & Hst & Hrd).
   set (r0 := run o i (prog_of sl c0) s) in *.
   pose proof K as (K1 & K2 & K3 & K4 & K5 & K6 & K7).
   assert (Hw : wf s) by apply Hok.
   intros c r [E|Hin] Hr i0 d0 Ea Ed.
   - injection E as <- <-.
-    destruct (Hrd Hr (Hnl c0 (or_introl eq_refl)) i0 d0 Ea Ed) as (j & dj & Ej & Edj & Ebj & Hnf).
+    destruct (Hrd Hr i0 d0 Ea Ed) as (j & dj & Ej & Edj & Ebj & Hnf).
     (* the target is not a source of a later command: those are regular files of s, the target is not *)
     assert (Hnot : ~ In (move_target_of c0) (map victim cs)).
     { intros Hv. apply in_map_iff in Hv. destruct Hv as (c' & Ec' & Hc').
@@ -105,10 +104,8 @@ Proof.
   - assert (Hc : In c cs) by (eapply in_combine_l; eauto).
     assert (Hne : victim c <> victim c0).
     { destruct Hok as (_ & HN & _). cbn [map] in HN. inversion HN as [|? ? Hx _]; subst. intros E. apply Hx. rewrite <- E. now apply in_map. }
-    assert (Hnl' : forall c', In c' cs -> forall x, names (ofs r0) (move_target_of c') <> Some (NLink x)).
-    { intros c' Hc' x Ex. apply (Hnl c' (or_intror Hc') x). apply K7. exact Ex. }
     assert (Ea' : names (ofs r0) (victim c) = Some (NFile i0)) by (apply K1; auto).
     assert (Ed' : inodes (ofs r0) i0 = Some d0).
     { rewrite K3; [exact Ed|]. destruct Hw as [W _]. eapply W; eauto. }
-    exact (IH (oidx r0) (ofs r0) Hok' Hnl' c r Hin Hr i0 d0 Ea' Ed').
+    exact (IH (oidx r0) (ofs r0) Hok' c r Hin Hr i0 d0 Ea' Ed').
 Qed.
